@@ -77,3 +77,41 @@ CASES += [
     m("values branch sums the reorganisation energies of the caller's dictionaries", "C09-E", C,
       "                for prms in self.params:\n                    self.lamb += prms[\"reorg\"]", "                for prms in p2calc:\n                    self.lamb += prms[\"reorg\"]"),
 ]
+
+CASES += [
+    {"name": "temperatures compared after the data were added (the repaired defect)", "kind": "mutant", "rule": "C09-B", "edits": [
+        ("quantarhei/qm/corfunctions/correlationfunctions.py",
+         "            # refuse before anything is changed\n            if self.temperature != other.temperature:\n                raise Exception(\"Cannot add two correlation functions on different temperatures\")\n    \n            self.data += other.data\n            self.lamb += other.lamb  # reorganization energy is additive\n",
+         "            self.data += other.data\n            self.lamb += other.lamb  # reorganization energy is additive\n            if self.temperature != other.temperature:\n                raise Exception(\"Cannot add two correlation functions on different temperatures\")\n    \n", 1)]},
+    {"name": "spectral density copied under the caller's units (the repaired defect)", "kind": "mutant", "rule": "C09-E", "edits": [
+        ("quantarhei/qm/corfunctions/spectraldensities.py",
+         "        with energy_units(\"int\"):\n            sd = SpectralDensity(self.axis, self.params)\n        return sd",
+         "        sd = SpectralDensity(self.axis, self.params)\n        return sd", 1)]},
+    {"name": "correlation function derived from a spectral density rebuilt outside internal units", "kind": "mutant", "rule": "C09-E", "edits": [
+        ("quantarhei/qm/corfunctions/spectraldensities.py",
+         "            cfce = CorrelationFunction(time, params, values=cftd.data)\n        return cfce",
+         "            pass\n        cfce = CorrelationFunction(time, params, values=cftd.data)\n        return cfce", 1)]},
+    {"name": "copy made from a copied parameter list under internal units", "kind": "twin", "edits": [
+        ("quantarhei/qm/corfunctions/spectraldensities.py",
+         "        with energy_units(\"int\"):\n            sd = SpectralDensity(self.axis, self.params)\n        return sd",
+         "        plist = [dict(p) for p in self.params]\n        with energy_units(\"int\"):\n            sd = SpectralDensity(self.axis, plist)\n        return sd", 1)]},
+    {"name": "temperatures compared before the axes", "kind": "twin", "edits": [
+        ("quantarhei/qm/corfunctions/correlationfunctions.py",
+         "        t1 = self.axis\n        t2 = other.axis\n        if t1 == t2:\n            \n            # refuse before anything is changed\n            if self.temperature != other.temperature:\n                raise Exception(\"Cannot add two correlation functions on different temperatures\")\n    \n",
+         "        t1 = self.axis\n        t2 = other.axis\n        if self.temperature != other.temperature:\n            raise Exception(\"Cannot add two correlation functions on different temperatures\")\n        if t1 == t2:\n            \n", 1)]},
+]
+
+CASES += [
+    {"name": "Fourier transform object keeps the last component only (the repaired defect)", "kind": "mutant", "rule": "C09-A", "edits": [
+        ("quantarhei/qm/corfunctions/correlationfunctions.py",
+         "            # all components are kept (not only the last one)\n            self.params.append(prms)\n",
+         "        self.params = prms\n", 1)]},
+    {"name": "odd part built after the loop from the last transform", "kind": "mutant", "rule": "C09-A", "edits": [
+        ("quantarhei/qm/corfunctions/correlationfunctions.py",
+         "                ndata = numpy.real(ftvals.data)\n\n            self._add_me(self.axis,ndata)\n\n\nclass EvenFTCorrelationFunction",
+         "                ndata = numpy.real(ftvals.data)\n\n        self._add_me(self.axis,ndata)\n\n\nclass EvenFTCorrelationFunction", 1)]},
+    {"name": "converted components collected in a local list first", "kind": "twin", "edits": [
+        ("quantarhei/qm/corfunctions/correlationfunctions.py",
+         "            # all components are kept (not only the last one)\n            self.params.append(prms)\n",
+         "            converted = self.params\n            converted.append(prms)\n", 1)]},
+]
